@@ -245,3 +245,60 @@ def desugar_combinators(facts):
             f.setdefault("desugared", []).append(t["func"]["path"].rsplit("::", 1)[-1])
             n += 1
     return n
+
+
+# ---------------------------------------------------------------------------------------------------------------------
+# private newtypes introduced around a single value
+
+def unwrap_newtypes(raw, ref, crate):
+    """A struct the reference tree does not have, with exactly one field and no public visibility, is a wrapper somebody put
+    around a value that used to travel bare (`struct Level(i32)` for a resolution handed between private functions).
+    The wrapper is written out of the program: the type becomes its field's type, building it is a move of the field,
+    reading its field is the value itself.  Its methods and From impls are ordinary new helpers (spliced into their
+    callers), whose bodies are then identities or the arithmetic they wrap.  Returns the text of the rewritten facts
+    and the list of unwrapped types; only applied when the reference lists its ADTs."""
+    import json as _json, re as _re
+    known = set(ref.get("adts") or ())
+    if not known:
+        return None, []
+    news = {}
+    for a in raw["adts"]:
+        if a["path"] in known or a["kind"] != "Struct" or a.get("vis") == "pub":
+            continue
+        fs = a["variants"][0]["fields"]
+        if len(fs) != 1 or "<" in a["path"]:
+            continue
+        news[a["path"]] = fs[0]["ty"]
+    if not news:
+        return None, []
+    # wrappers of wrappers: resolve inner types that are themselves wrappers
+    def ty_name(path):
+        return path.split("::", 1)[1] if path.startswith(crate + "::") else path
+    for _ in range(4):
+        for pth, inner in list(news.items()):
+            for p2, i2 in news.items():
+                if p2 != pth and _re.search(r"(?<![A-Za-z0-9_:])" + _re.escape(ty_name(p2)) + r"(?![A-Za-z0-9_])", inner):
+                    news[pth] = _re.sub(r"(?<![A-Za-z0-9_:])" + _re.escape(ty_name(p2)) + r"(?![A-Za-z0-9_])", i2, inner)
+
+    def fix(o):
+        if isinstance(o, dict):
+            # building the wrapper = using the field
+            if o.get("k") == "aggregate" and o.get("agg") == "adt" and o.get("adt") in news and len(o.get("ops", [])) == 1:
+                op = o["ops"][0]
+                o.clear()
+                o.update({"k": "use", "op": op})
+            # reading the field = the value itself
+            if "proj" in o and isinstance(o["proj"], list) and any(isinstance(e, dict) and e.get("k") == "field" and e.get("adt") in {p_.rsplit("::", 1)[-1] for p_ in news} | set(news) for e in o["proj"]):
+                o["proj"] = [e for e in o["proj"] if not (isinstance(e, dict) and e.get("k") == "field" and (e.get("adt") in news or e.get("adt") in {p_.rsplit("::", 1)[-1] for p_ in news}))]
+            for v in list(o.values()):
+                fix(v)
+        elif isinstance(o, list):
+            for v in o:
+                fix(v)
+    fix(raw["fns"])
+    text = _json.dumps(raw)
+    for pth, inner in sorted(news.items(), key=lambda kv: -len(kv[0])):
+        tn = ty_name(pth)
+        # type strings carry no crate prefix; item paths (functions, impls) do and are left alone
+        text = _re.sub(r"(?<![A-Za-z0-9_:])" + _re.escape(tn) + r"(?![A-Za-z0-9_:])", inner.replace("\\", "\\\\"), text)
+    return text, sorted(news)
